@@ -233,6 +233,9 @@ def run_check(modname, tier, seed, workers=None, only_units=None):
     # ---- replay artefacts, confirmed twice ------------------------------------
     rdir = os.path.join(ROOT, "replays")
     os.makedirs(rdir, exist_ok=True)
+    for old in os.listdir(rdir):
+        if old.startswith(pid + "-") and old.endswith(".json"):
+            os.remove(os.path.join(rdir, old))     # replays of earlier runs of this property are stale
     nondeterministic = []
     nviol = 0
     for k, (sig, vs) in enumerate(unlisted.items()):
